@@ -1,6 +1,7 @@
 """Python side of the sanitizer-instrumented native driver (native/specpart_driver.c)."""
 import os
 import re
+import shutil
 import subprocess
 
 import numpy as np
@@ -123,3 +124,63 @@ def pipe():
     if _pipe is None:
         _pipe = Pipe()
     return _pipe
+
+
+def fuzz(prop, tier, seed, shard, nshards):
+    """libFuzzer campaign on the watershed routine (oracle inside the target)."""
+    name = "libfuzzer"
+    res = core.Result(name)
+    exe = env.build_native("specpart_fuzz", "specpart_fuzz.c", fuzzer=True, extra=("-I", os.path.join(env.VERIF, "native")))
+    runs = 50000 if tier == "quick" else 600000
+    work = os.path.join(env.workdir(), "fuzz-%d" % shard)
+    os.makedirs(work, exist_ok=True)
+    fseed = (core.derive_seed(seed, prop, name, shard) % (2**31 - 2)) + 1
+    p = subprocess.run([exe, "-runs=%d" % runs, "-seed=%d" % fseed, "-max_len=260", "-print_final_stats=1", "-artifact_prefix=" + work + "/", work],
+                       capture_output=True, text=True, env=dict(os.environ, ASAN_OPTIONS="detect_leaks=0", UBSAN_OPTIONS="halt_on_error=1"))
+    m = re.search(r"stat::number_of_executed_units:\s*(\d+)", p.stderr)
+    nu = re.search(r"stat::new_units_added:\s*(\d+)", p.stderr)
+    res.evaluations = int(m.group(1)) if m else 0
+    res.nt_extra = int(nu.group(1)) if nu else 0  # inputs that reached new coverage: distinct by construction
+    res.classes = dict(fuzz_executions=res.evaluations, fuzz_new_coverage_units=res.nt_extra, fuzz_budget_reached=int(p.returncode == 0))
+    res.samples = [dict(libfuzzer=dict(runs=runs, seed=fseed, executed=res.evaluations, corpus_units=res.nt_extra))]
+    arts = [a for a in os.listdir(work) if a.startswith(("crash-", "timeout-", "oom-"))]
+    if p.returncode != 0 or arts:
+        fails = [l for l in p.stdout.splitlines() if l.startswith("FAIL ")]
+        if fails:
+            case, why = parse_fail(fails[-1])
+        elif arts:
+            case, why = decode_fuzz_input(open(os.path.join(work, arts[0]), "rb").read()), "sanitizer"
+        else:
+            case, why = None, None
+        if case is None:
+            res.error = "libFuzzer exited with %d and no artifact:\n%s" % (p.returncode, p.stderr[-1500:])
+        else:
+            v = core.Violation(why, _digest(p.stderr))
+            res.violation = dict(clause=why, detail=v.detail, replay=core.write_replay(prop, name, case, v))
+    shutil.rmtree(work, ignore_errors=True)
+    return res
+
+
+IHS = [1, 2, 3, 4, 5, 7, 10, 50, 100, 1000]
+
+
+def decode_fuzz_input(data):
+    """Python twin of the decoding in native/specpart_fuzz.c."""
+    if len(data) < 5:
+        return None
+    nk, nth, ih = 1 + data[0] % 12, 1 + data[1] % 16, IHS[data[2] % 10]
+    mode, levels = data[3] >> 6, 2 + (data[3] & 7)
+    vals = []
+    for i in range(nk * nth):
+        b = data[4 + (i % (len(data) - 4))]
+        if mode == 0:
+            vals.append(float(b % levels))
+        elif mode == 1:
+            vals.append(float(np.float32(b) / np.float32(255.0)))
+        elif mode == 2:
+            vals.append(0.0 if (b & 3) else float(1 + (b >> 2)))
+        else:
+            vals.append(float(np.exp(np.float32(-b / 16.0), dtype=np.float32)))
+    return dict(nk=nk, nth=nth, ihmax=ih, values=vals)
+
+
